@@ -123,8 +123,10 @@ class Position
 
     HashKey _zobrist_hash;
 
+    // keys of all positions of the game so far (and of the current search
+    // line); not bounded by MAX_PLIES, games can be longer than that
     int32_t _history_counter;
-    uint64_t _history[MAX_PLIES];
+    std::vector<uint64_t> _history;
 
     VERIF_FRIENDS
 };
